@@ -371,7 +371,11 @@ MANIFEST_TEXT = {
                 "statement ends at once with the interrupt and changes nothing (no probe, binding or scope), no loop form iterates again, "
                 "cancellation is permanent (induction on fuel over all 28 model functions: cancelAt never changes, polls only grows), try "
                 "and ?? cannot swallow the interrupt, a script function called after the cancellation runs no statement of its body and "
-                "fails with 'execution interrupted'. Correspondence: a counting context cancels the real interpreter at exactly poll k and "
+                "fails with 'execution interrupted'. WHOLE-RUN no-swallow theorem (Proofs/EvalIntr.lean, induction on fuel through all 28 "
+                "evaluator functions): for every program, start state and cancellation point, once ANY poll of the run has observed the "
+                "cancellation the error register holds the interrupt or a real error after every statement, expression and invocation "
+                "(never 'no error', never break/continue/return), deferred calls that still run put the parked error back, and "
+                "RunContext returns an error to the host (program_never_swallows; contrapositive successful_run_polled_before_cancel). Correspondence: a counting context cancels the real interpreter at exactly poll k and "
                 "the model at cancelAt=k for spinning cores x 17 wrappers and random programs, every chosen k; wall-clock oracle with "
                 "context.WithCancel over spinning and blocking (channel) cores in a child process.",
         "note": "Trusted: Lean kernel; fidelity of the model's poll points (differential at poll granularity); Go runtime for channels/select. "
